@@ -76,6 +76,17 @@ func ruleDiskWriterFlags(c *Ctx, rule string) {
 
 // ruleStreamCopy: error discipline of one copy function.
 func ruleStreamCopy(c *Ctx, rule string, f *ssa.Function) {
+	// the reader/writer/io.Copy sequence may live in a private helper
+	hasCopy := func(g *ssa.Function) bool { return len(CallsTo(g, "io.Copy")) > 0 }
+	if !hasCopy(f) {
+		for _, g := range reachableSamePkg(f, 2) {
+			if hasCopy(g) {
+				c.Note("%s delegates the copy to %s", fname(f), fname(g))
+				f = g
+				break
+			}
+		}
+	}
 	name := fname(f)
 	facts := factsFor(f)
 	var copyCall, closeW *ssa.Call
@@ -100,17 +111,7 @@ func ruleStreamCopy(c *Ctx, rule string, f *ssa.Function) {
 	}
 	wval := resultN(writerOpen, 0)
 	rval := resultN(readerOpen, 0)
-	isCloseOf := func(ci *CallInfo, vals []ssa.Value) bool {
-		if ci.Method == nil || ci.Method.Name() != "Close" {
-			return false
-		}
-		for _, v := range vals {
-			if resolve(ci.Recv()) == v || sameValue(resolve(ci.Recv()), v) {
-				return true
-			}
-		}
-		return false
-	}
+	isCloseOf := closesOneOf
 	// the close of the writer whose error is used
 	for _, ci := range Calls(f) {
 		call, _ := ci.Instr.(*ssa.Call)
@@ -138,7 +139,17 @@ func ruleStreamCopy(c *Ctx, rule string, f *ssa.Function) {
 			eachInstr(g, func(_ *ssa.BasicBlock, _ int, in ssa.Instruction) {
 				if st, isSt := in.(*ssa.Store); isSt {
 					if fv, isFV := st.Addr.(*ssa.FreeVar); isFV && isErrorType(derefType(fv.Type())) {
-						ok, why = false, "a deferred function overwrites the result: an earlier copy error is replaced by the result of Close"
+						// accepted only where the result is known to be still nil
+						gfacts := factsFor(g)
+						guarded := false
+						for _, r := range *fv.Referrers() {
+							if ld, isLd := r.(*ssa.UnOp); isLd && gfacts.KnownNil(st.Block(), ld, true) {
+								guarded = true
+							}
+						}
+						if !guarded {
+							ok, why = false, "a deferred function overwrites the result: an earlier copy error is replaced by the result of Close"
+						}
 					}
 				}
 			})
@@ -256,7 +267,7 @@ func rulesC04(c *Ctx) {
 		}
 		ruleStreamCopy(c, "R3", f)
 	}
-	c.Floor("R3", c.Count("R3"), 6)
+	c.Floor("R3", c.Count("R3"), 3)
 
 	// ---- R4 tree copy reports --------------------------------------------------------------------
 	cp := c.P.Func(helperPkg, "", "Copy")
@@ -350,4 +361,69 @@ func rulesC04(c *Ctx) {
 		c.Floor("R5", ruleWritersCopyChunks(c, "R5", "filesystem/"), 2)
 		c.Check(okApp && okLen, "R5", "memfs.(*FileHandler).Write appends the chunk", hw.Pos(), "data = append(data, p...); returns len(p), nil", "the write handle does not append exactly the given chunk / does not report its length — the file is not the concatenation of the chunks")
 	}
+}
+
+// closesOneOf: the call (or deferred call / deferred function literal) closes
+// one of the given stream values, also when the stream variable is captured.
+func closesOneOf(ci *CallInfo, vals []ssa.Value) bool {
+	holds := func(a *ssa.Alloc) bool {
+		for _, r := range *a.Referrers() {
+			if st, isSt := r.(*ssa.Store); isSt && st.Addr == ssa.Value(a) {
+				for _, v := range vals {
+					if st.Val == v || resolve(st.Val) == v {
+						return true
+					}
+				}
+			}
+		}
+		return false
+	}
+	if ci.Kind == "defer" {
+		if mc, isMC := ci.Common.Value.(*ssa.MakeClosure); isMC {
+			if g, isFn := mc.Fn.(*ssa.Function); isFn && !strings.HasSuffix(g.Name(), "$bound") {
+				for _, inner := range Calls(g) {
+					if inner.Method == nil || inner.Method.Name() != "Close" {
+						continue
+					}
+					if ld, isLd := inner.Recv().(*ssa.UnOp); isLd {
+						if fv, isFV := ld.X.(*ssa.FreeVar); isFV {
+							if a, isA := bindingOf(fv).(*ssa.Alloc); isA && holds(a) {
+								return true
+							}
+						}
+					}
+				}
+				return false
+			}
+		}
+	}
+	if ci.Method == nil || ci.Method.Name() != "Close" {
+		return false
+	}
+	recv := ci.Recv()
+	for _, v := range vals {
+		if resolve(recv) == v || sameValue(resolve(recv), v) {
+			return true
+		}
+	}
+	if ld, isLd := recv.(*ssa.UnOp); isLd {
+		if a, isA := ld.X.(*ssa.Alloc); isA && holds(a) {
+			return true
+		}
+	}
+	return false
+}
+
+// closesParamAlways: g closes its parameter number idx on every path to every
+// return (directly, deferred, or in a deferred function literal).
+func closesParamAlways(g *ssa.Function, idx int) bool {
+	if g == nil || g.Blocks == nil || idx >= len(g.Params) {
+		return false
+	}
+	vals := []ssa.Value{g.Params[idx]}
+	bad := MustPass(g, nil, func(in ssa.Instruction) bool {
+		ci := callInfo(in, nil, 0)
+		return ci != nil && closesOneOf(ci, vals)
+	})
+	return len(bad) == 0
 }
